@@ -107,3 +107,54 @@ Definition constants_ok : bool :=
 
 Lemma constants_ok_true : constants_ok = true.
 Proof. vm_compute. reflexivity. Qed.
+
+(* --- C14 (fault model, Fault.v): the result of every fallible call is examined ------------- *)
+(* [sync_fallible_calls]: the fallible calls of Sync::sync in textual order with the flag "the
+   closing parenthesis is followed by `?`"; [sync_try_count]: the number of `?` in that body (a new
+   fallible call that the model does not know about changes it); [io_result_calls]: every
+   write / resize / fsync call inside write_wal, truncate_wal, write_ht, Meta::write, seglog append
+   and the segment writer it uses, with the flag "its result is propagated".  A call whose result
+   is dropped ([let _ =], [.ok()], bare [;]) or a marker that is not found makes the lemma FAIL. *)
+Fixpoint calls_eqb (a b : list (string * bool)) : bool :=
+  match a, b with
+  | [], [] => true
+  | (n, c) :: a', (m, d) :: b' => String.eqb n m && Bool.eqb c d && calls_eqb a' b'
+  | _, _ => false
+  end.
+
+Lemma calls_eqb_eq : forall a b, calls_eqb a b = true -> a = b.
+Proof.
+  intros a. induction a as [|[n c] a IH]; intros [|[m d] b] H; simpl in H; try discriminate.
+  - reflexivity.
+  - apply andb_true_iff in H. destruct H as [H H3]. apply andb_true_iff in H. destruct H as [H1 H2].
+    apply String.eqb_eq in H1. apply Bool.eqb_prop in H2. subst. f_equal. apply IH. exact H3.
+Qed.
+
+(* the call [c] occurs in the body of [f] *)
+Definition io_present (f c : string) : bool :=
+  existsb (fun x => let '(g, d, _) := x in String.eqb g f && String.eqb d c) io_result_calls.
+
+Definition expected_sync_fallible_calls : list (string * bool) :=
+  [("bitbox_wait_pre_meta", true); ("beatree_wait_pre_meta", true); ("meta_write", true);
+   ("bitbox_post_meta", true); ("rollback_wait_post_meta", true)].
+
+Definition sync_results_checked : bool :=
+  (* exactly these five calls, in this order, each followed by `?`; no other `?` in the body *)
+  calls_eqb sync_fallible_calls expected_sync_fallible_calls &&
+  Nat.eqb sync_try_count 5 &&
+  (* no write / resize / fsync result is dropped inside the steps *)
+  forallb (fun x => let '(_, _, k) := x in k) io_result_calls &&
+  io_present "write_wal" "set_len" && io_present "write_wal" "write_all" && io_present "write_wal" "sync_all" &&
+  io_present "truncate_wal" "set_len" && io_present "truncate_wal" "sync_all" &&
+  io_present "write_ht" "recv_result" && io_present "write_ht" "sync_all" &&
+  io_present "meta_write" "write_all_at" && io_present "meta_write" "sync_all" &&
+  io_present "seglog_append" "write_header" && io_present "seglog_append" "write_payload" &&
+  io_present "seglog_append" "fsync" && io_present "seglog_append" "create_segment" &&
+  io_present "segment_write_header" "write_all" && io_present "segment_write_payload" "write_all" &&
+  io_present "segment_write_payload" "set_len" && io_present "segment_fsync" "sync_data".
+
+Lemma sync_results_checked_true : sync_results_checked = true.
+Proof. vm_compute; reflexivity. Qed.
+
+Lemma sync_fallible_calls_expected : sync_fallible_calls = expected_sync_fallible_calls.
+Proof. apply calls_eqb_eq. vm_compute; reflexivity. Qed.
